@@ -18,6 +18,8 @@ func init() {
 	alias("C04", "R8", "C02", "R5", "the persisted sign state only protects across restarts if the signer refuses height/round/step regressions and reuses signatures correctly")
 	alias("C12", "R6", "C05", "R6", "mempool contents stay current only if CheckTx is excluded during commit/update")
 	alias("C12", "R7", "C05", "R5", "the update lock must be taken and the connection flushed around commit")
+	alias("C02", "R8", "C01", "R5", "'more than two thirds' of the prevote power is decided by the vote set's quorum arithmetic")
+	alias("C02", "R9", "C01", "R6", "a quorum only means something if every counted vote was admitted correctly")
 	alias("C02", "R6", "C01", "R3", "a precommit for a block goes with locking on it")
 	alias("C02", "R7", "C01", "R4", "after precommitting (locking) a block the validator prevotes nothing else")
 }
